@@ -31,7 +31,7 @@ var assumptions = []string{
 	"the middleware of an application is what Use / Handlers last made it: a request served after Handlers() was called with no arguments meets no middleware (the stack is looked at per request, or invalidated when it changes)",
 	"what happens to the chain after a panic crossed run() and was recovered by an outer handler is not compared (the statement does not say); neither is what a Flame without Recovery does with a panic nobody recovers",
 	"'the request context' is the context of the request as the chain sees it at that moment: a handler that installs another context on the request (c.Request().Request = r.WithContext(...)) changes it, a request that arrives already cancelled starts no handler, or its first handler and nothing behind it",
-	"handlers are closures of the shapes func(Context) and func(Context) <result>; both the fast-invoker wrapping and the reflective path are exercised",
+	"handlers are closures of the shapes func(Context) and func(Context) <result>, one in eight a value of type http.HandlerFunc (which can only write or panic); both the fast-invoker wrapping and the reflective path are exercised",
 	"a panic that no handler recovers escapes ServeHTTP in the implementation and in the interpreter alike; only the trace up to it is compared",
 }
 
